@@ -95,7 +95,7 @@ def vk_cases(draw, nmax=28):
     ps = draw(gen.logfloat(0.01, 1.0))
     if draw(st.integers(0, 5)) == 0:
         ps = draw(st.sampled_from([1, 2]))                       # a pixel scale given as an integer is a valid pixel scale
-    return {"kind": "vk", "nx": nx, "ncol": draw(st.integers(1, min(4, nx))), "ps": ps, "r0": draw(gen.logfloat(0.05, 1.0)),
+    return {"kind": "vk", "nx": nx, "ncol": draw(st.integers(1, min(4, nx))), "ps": ps, "r0": draw(st.one_of(gen.logfloat(0.05, 1.0), gen.logfloat(1e-3, 100.0))),
             "L0": ps * draw(RATIO), "seed": draw(st.integers(0, 2**31)), "c": draw(st.floats(-50, 50)),
             "sib": draw(st.sampled_from([None, None, "r0,L0", "r0", "L0", "ps,r0,L0"])), "sibk": draw(st.sampled_from([2.0, 0.5, 4.0, 1.25]))}
 
@@ -106,7 +106,7 @@ def fried_cases(draw, nmax=20):
     ps = draw(gen.logfloat(0.01, 1.0))
     if draw(st.integers(0, 5)) == 0:
         ps = draw(st.sampled_from([1, 2]))
-    return {"kind": "fried", "nx": nx, "factor": draw(st.integers(1, 4)), "ps": ps, "r0": draw(gen.logfloat(0.05, 1.0)),
+    return {"kind": "fried", "nx": nx, "factor": draw(st.integers(1, 4)), "ps": ps, "r0": draw(st.one_of(gen.logfloat(0.05, 1.0), gen.logfloat(1e-3, 100.0))),
             "L0": ps * draw(RATIO), "seed": draw(st.integers(0, 2**31)), "c": draw(st.floats(-50, 50)),
             "sib": draw(st.sampled_from([None, None, "r0,L0", "r0", "L0", "ps,r0,L0"])), "sibk": draw(st.sampled_from([2.0, 0.5, 4.0, 1.25]))}
 
